@@ -599,6 +599,7 @@ func (e *Exec) hashUF(name string, in []Value, n int) ArrayV {
 			return r
 		}
 	}
+	e.usedUF = true
 	args := make([]*Term, len(in))
 	for i, b := range in {
 		args[i] = b.(*Term)
@@ -664,6 +665,7 @@ func (e *Exec) flatten(v Value, out *[]*Term, shape *strings.Builder, depth int)
 }
 
 func (e *Exec) hashTreeRoot(fn *ssa.Function, recv Value) Value {
+	e.usedUF = true
 	var terms []*Term
 	var shape strings.Builder
 	shape.WriteString(fn.Signature.Recv().Type().String())
